@@ -131,6 +131,30 @@ def c03(out, tv):
             continue
         if not _eq(again, val):
             v.append(('not-a-fixed-point', f'{key} stored {val!r} but its definition yields {again!r} on the final inputs/values'))
+    # the same, over the values as the *returned solution* carries them (each value
+    # printed by its line's to_string and re-read by from_string, which is what
+    # solution() hands to its readers)
+    vs2 = V.ValueStore()
+    view = {}
+    for key, val in fv.items():
+        fld = drive.find_field(out, key)
+        if fld is None:
+            continue
+        try:
+            view[key] = fld.from_string(fld.to_string(val))
+        except BaseException:  # noqa  (unprintable value: C14's subject)
+            view[key] = val
+        vs2[key] = view[key]
+    for key, val in view.items():
+        fld = drive.find_field(out, key)
+        fi = FM.FormAccessor(out.store, fld.form())
+        try:
+            again = fld.value(fi, FM.FormAccessor(vs2, fld.form()))
+        except BaseException as e:  # noqa
+            continue        # already reported above if it also fails on the stored values
+        n += 1
+        if not _eq(again, val) and not _eq(again, view[key]):
+            v.append(('solution-not-a-fixed-point', f'{key} is returned as {view[key]!r} but its definition yields {again!r} on the values the solution returns for the lines it reads'))
     # online: reads see the latest store; a key never changes value
     latest = {}
     for ev in tv.events:
